@@ -257,6 +257,25 @@ def cases(tier, seed, args):
             sc.pop('wca_pos', None)
             sc['wca'], sc['wca_type'] = (-1,), 'tuple'
             out.append(dict(t='domain', **sc))
+        # non-default concentration limits of the vMF models (1000, 5000: beyond the range of the unscaled Bessel function) on
+        # tight classes, several iterations
+        for i in range(4 if q else 16):
+            kind = ['vmfmm', 'vmfcacgmm'][i % 2]
+            sc = scenario(rng, kind, tier)
+            sc.update(regime='separable', init='hard', dtype='float64', K=2 + i % 2, iterations=2 + i % 3, saliency=False, sam=False, aligner=False,
+                      tight_vmf=True)
+            sc['opts'] = dict({k: v for k, v in sc['opts'].items() if k != 'inline_permutation_alignment'}, max_concentration=[1000.0, 5000.0][(i // 2) % 2])
+            sc.pop('wca_pos', None)
+            out.append(dict(t='domain', **sc))
+        # integration models with the class axis among the tied axes (uniform weights), written in every order
+        for i in range(4 if q else 12):
+            kind = ['gcacgmm', 'vmfcacgmm'][i % 2]
+            sc = scenario(rng, kind, tier)
+            sc.update(regime='regular', init='soft', dtype='float64', K=2 + i % 2, iterations=2 + i % 2, saliency=bool(i % 2), sam=False, aligner=False)
+            sc['opts'] = {k: v for k, v in sc['opts'].items() if k != 'inline_permutation_alignment'}
+            sc.pop('wca_pos', None)
+            sc['wca'], sc['wca_type'] = [(-2, -1), (-1, -2), (-3, -2, -1), (-2, -1)][(i // 2) % 4], 'tuple'
+            out.append(dict(t='domain', **sc))
         # fixed input reproducing the recorded known finding (known_findings.json, C09)
         import json as _json, os as _os
         out.extend(_json.load(open(_os.path.join(_os.path.dirname(__file__), 'c09_known_case.json'))))
@@ -387,6 +406,13 @@ def model_case(case, want=('predict', 'fit_predict', 'estep')):
         key_ = 'y' if kind == 'gmm' else 'emb'
         data[key_] = data[key_] + case['offset']        # common offset far larger than the spread
     init = ml.make_init(rng, L, K, N, style=case['init'], lead_singleton=bool(case.get('lead_singleton')))
+    if case.get('tight_vmf'):
+        key_ = 'emb' if kind in ml.INTEGRATION else 'y'
+        E_ = data[key_].shape[-1]
+        labt = rng.integers(0, K, size=(*L, N))
+        labt[..., :K] = np.arange(K)
+        data[key_] = ml.unit(ml.unit(rng.normal(size=(K, E_)))[labt] + 1e-4 * rng.normal(size=(*L, N, E_)))
+        init = np.ascontiguousarray(np.moveaxis(np.eye(K)[labt], -1, -2))
     if case.get('tiny_class'):
         init[..., 0, :] = case['tiny_class']
         init = init / init.sum(-2, keepdims=True)
@@ -607,7 +633,7 @@ def domain_case(case):
                floor=enc.flt(opts.get('eigenvalue_floor', 1e-10)),
                norm={'eigenvalue': 'eigenvalue', 'trace': 'trace', False: 'none'}[opts.get('covariance_norm', 'eigenvalue')],
                kmin=enc.flt(1e-10),
-               kmax=enc.flt(case.get('trainer_kw', {}).get('max_concentration', 500.0 if kind != 'cbmm' else 1e300)),
+               kmax=enc.flt(case.get('trainer_kw', {}).get('max_concentration', opts.get('max_concentration', 500.0 if kind != 'cbmm' else 1e300))),
                eps=enc.flt(opts.get('affiliation_eps', 1e-10 if kind in ('cacgmm', 'gcacgmm', 'vmfcacgmm') else 0.0)),
                degenerate=case['regime'] == 'degenerate' or case['init'] == 'hard', zero_resultant=False,
                exc=ctx['exc'], exc_explicit=ctx['exc'] in EXPLICIT, fields=[], fp=ctx['fp'] + ';call=fit;domain',
